@@ -733,10 +733,15 @@ class SimKernel:
             # the program under test fork()s and goes on in the child: same
             # psutil module state, another PID; the old PID is now an
             # ordinary process (the parent)
+            from . import seams as _seams
+            for fn in list(_seams.State.at_fork_before):
+                fn()
             old = self.procs.get(self.self_pid)
             self.spawn(pid=ev["pid"], ppid=self.self_pid,
                        comm=old.comm if old is not None else b"python3")
             self.self_pid = ev["pid"]
+            for fn in list(_seams.State.at_fork_child):
+                fn()
         elif kind == "hook":
             # something the engine does at this moment on the thread that
             # is running (a signal handler interrupting a sleep)
